@@ -13,7 +13,7 @@ Proof. exact v0_parse_ser. Qed.
 Print Assumptions C08_v0_parse_ser.
 
 (* the hop is the identity on packets in canonical form (sorted signatures and derivations, derived
-   tx flags, no global unknowns, finalized inputs cleared, proofs only on confidential-nonce UTXOs) *)
+   tx flags, finalized inputs cleared, proofs only on confidential-nonce UTXOs) *)
 Theorem C08_v0_canon_identity : forall p, v0_canon p = true -> v0_norm p = p.
 Proof. exact v0_canon_norm. Qed.
 Print Assumptions C08_v0_canon_identity.
@@ -45,29 +45,57 @@ Theorem C08_v0_parse_wf : forall valid_pk valid_sig bs p,
 Proof. exact v0_parse_wf. Qed.
 Print Assumptions C08_v0_parse_wf.
 
-(* clause 2 as far as the code satisfies it: parse, serialize, parse lands on the v0_norm image *)
+(* clause 2 as far as the code satisfies it: parse, serialize, parse lands on the v0_norm image.
+   The one hypothesis left is the 44-byte floor of readTxOut on what is re-serialized; it holds for
+   every witness UTXO whose value is not the one-byte null value (C08_v0_floor_only_null_value) *)
 Theorem C08_v0_parse_ser_parse_partial : forall valid_pk valid_sig bs p,
-  v0_parse valid_pk valid_sig bs = Some p -> v0_wu45_all p = true ->
+  v0_parse valid_pk valid_sig bs = Some p -> v0_wufloor_all p = true ->
   exists bs', v0_ser p = Some bs' /\ v0_parse valid_pk valid_sig bs' = Some (v0_norm p).
 Proof. exact v0_parse_ser_parse. Qed.
 Print Assumptions C08_v0_parse_ser_parse_partial.
 
-(* where the identity fails on the code as it is (known findings) *)
-Theorem C08_v0_psp_refuted_global_unknown :
-  v0_psp_fails (v0_stream [[([x00], ser_full ex_tx0); ([xfc; x01], [x02])]]).
-Proof. exact v0_psp_refuted_global_unknown. Qed.
-Print Assumptions C08_v0_psp_refuted_global_unknown.
+(* ... and it is the identity when the first parse is canonical *)
+Theorem C08_v0_parse_ser_parse_identity : forall valid_pk valid_sig bs p,
+  v0_parse valid_pk valid_sig bs = Some p -> v0_wufloor_all p = true -> v0_canon p = true ->
+  exists bs', v0_ser p = Some bs' /\ v0_parse valid_pk valid_sig bs' = Some p.
+Proof. exact v0_parse_ser_parse_id. Qed.
+Print Assumptions C08_v0_parse_ser_parse_identity.
 
+Theorem C08_v0_floor_only_null_value : forall o, wf_out o = true ->
+  match o_value o with v :: _ => negb (n8 v =? 0) | [] => false end = true -> v0_wufloor o = true.
+Proof. exact v0_wufloor_nonnull. Qed.
+Print Assumptions C08_v0_floor_only_null_value.
+
+(* repaired in /repo (88a2d94, 2b1b006), now positive: global unknowns, 44-byte witness UTXO,
+   fingerprint-only derivation *)
+Theorem C08_v0_psp_global_unknown :
+  v0_psp_holds (v0_stream [[([x00], ser_full ex_tx0); ([xfc; x01], [x02])]]).
+Proof. exact v0_psp_global_unknown. Qed.
+Print Assumptions C08_v0_psp_global_unknown.
+
+Theorem C08_v0_psp_wu44 :
+  v0_psp_holds (v0_stream [[([x00], ser_full ex_tx1)];
+                           [([x01], (x01 :: ex_h32) ++ (x01 :: repeat x00 8) ++ [x00; x00] ++ [xff])]]).
+Proof. exact v0_psp_wu44. Qed.
+Print Assumptions C08_v0_psp_wu44.
+
+Theorem C08_v0_roundtrip_empty_path :
+  v0_wf ex_yes ex_yes ex_p_emptypath = true /\
+  exists bs, v0_ser ex_p_emptypath = Some bs /\ v0_parse ex_yes ex_yes bs = Some ex_p_emptypath.
+Proof. exact v0_roundtrip_empty_path. Qed.
+Print Assumptions C08_v0_roundtrip_empty_path.
+
+Theorem C08_v0_roundtrip_global_unknowns :
+  v0_wf ex_yes ex_yes ex_p_gunk = true /\
+  exists bs, v0_ser ex_p_gunk = Some bs /\ v0_parse ex_yes ex_yes bs = Some ex_p_gunk.
+Proof. exact v0_roundtrip_global_unknowns. Qed.
+Print Assumptions C08_v0_roundtrip_global_unknowns.
+
+(* where the identity still fails on the code as it is (known findings / stated exclusion) *)
 Theorem C08_v0_psp_refuted_finalized :
   v0_psp_fails (v0_stream [[([x00], ser_full ex_tx1)]; [([x04], [x51]); ([x07], [x00])]]).
 Proof. exact v0_psp_refuted_finalized. Qed.
 Print Assumptions C08_v0_psp_refuted_finalized.
-
-Theorem C08_v0_psp_refuted_wu44 :
-  v0_psp_fails (v0_stream [[([x00], ser_full ex_tx1)];
-                           [([x01], (x01 :: ex_h32) ++ (x01 :: repeat x00 8) ++ [x00; x00] ++ [xff])]]).
-Proof. exact v0_psp_refuted_wu44. Qed.
-Print Assumptions C08_v0_psp_refuted_wu44.
 
 Theorem C08_v0_roundtrip_refuted_null_nonce_proofs :
   v0_wf ex_yes ex_yes ex_p_nullnonce = true /\
@@ -77,10 +105,11 @@ Theorem C08_v0_roundtrip_refuted_null_nonce_proofs :
 Proof. exact v0_roundtrip_refuted_null_nonce_proofs. Qed.
 Print Assumptions C08_v0_roundtrip_refuted_null_nonce_proofs.
 
-Theorem C08_v0_roundtrip_refuted_empty_path :
-  exists bs, v0_ser ex_p_emptypath = Some bs /\ v0_parse ex_yes ex_yes bs = None.
-Proof. exact v0_roundtrip_refuted_empty_path. Qed.
-Print Assumptions C08_v0_roundtrip_refuted_empty_path.
+Theorem C08_v0_psp_refuted_null_value_floor :
+  v0_psp_fails (v0_stream [[([x00], ser_full ex_tx1)];
+                           [([x01], (x01 :: ex_h32) ++ [x00; x00; x00] ++ repeat xff 8)]]).
+Proof. exact v0_psp_refuted_null_value_floor. Qed.
+Print Assumptions C08_v0_psp_refuted_null_value_floor.
 
 (* the section loop's fuel is never exhausted *)
 Theorem C08_v0_section_fuel : forall (St : Type) (step : St -> bytes -> bytes -> option St) f1 f2 st bs,
